@@ -84,7 +84,7 @@ Fixpoint with_vals (fs : list xfield) (obs : list (str * bool)) : list xfield :=
   end.
 
 Definition gerr_of_view (v : view) : gerr :=
-  mkG (v_name v) (v_msg v) (v_src v) (v_dtag v) (v_stack v) VNil VNil false.
+  mkG (v_name v) (v_msg v) (v_src v) (v_dtag v) (v_stack v) VNil VNil [] false.
 
 (* Error() = base prefix, the print-tagged fields under their print names, the message *)
 Definition spec_head (fs : list xfield) (v : view) (obs : list (str * bool)) : str :=
